@@ -505,5 +505,172 @@ theorem acc_out (kind : AccKind) (hs hr : Bool) (hist : List (AccIn ν)) (cur : 
   rw [accResult_started, accResult_fold]
 
 
+/-! ### changed_cols: column-wise -/
+
+theorem colsStep_length (ign : Bool) (vals : List (Val ν)) (st : List (Option (Val ν))) :
+    (colsStep ign st vals).2.length = vals.length := by
+  induction vals generalizing st with
+  | nil => rfl
+  | cons v vs ih => simp [colsStep, ih]
+
+theorem headD_eq_getD {γ : Type} (l : List γ) (d : γ) : l.headD d = l.getD 0 d := by
+  cases l <;> rfl
+
+theorem tail_getD {γ : Type} (l : List γ) (j : Nat) (d : γ) : l.tail.getD j d = l.getD (j + 1) d := by
+  cases l <;> simp [List.getD]
+
+theorem colsStep_get (ign : Bool) (vals : List (Val ν)) (st : List (Option (Val ν))) (j : Nat)
+    (hj : j < vals.length) :
+    (colsStep ign st vals).1.getD j none = (chgStep ign (st.getD j none) (vals.getD j .null)).1 ∧
+    (colsStep ign st vals).2.getD j none = (chgStep ign (st.getD j none) (vals.getD j .null)).2 := by
+  induction vals generalizing st j with
+  | nil => simp at hj
+  | cons v vs ih =>
+    cases j with
+    | zero => simp [colsStep, List.head?_eq_getElem?]
+    | succ j =>
+      have hj' : j < vs.length := by simpa using hj
+      have := ih st.tail j hj'
+      simpa [colsStep, tail_getD] using this
+
+theorem column_snoc (j : Nat) (hist : List (List (Val ν))) (r : List (Val ν)) :
+    column j (hist ++ [r]) = column j hist ++ [r.getD j .null] := by
+  simp [column]
+
+theorem changedCols_state (ign : Bool) (n : Nat) (hist : List (List (Val ν)))
+    (hw : ∀ r ∈ hist, r.length = n) (j : Nat) (hj : j < n) :
+    ((changedColsMachine ign).run (changedColsMachine ign).init hist).getD j none =
+      baseline ign (column j hist) := by
+  refine Machine.run_inv_init (changedColsMachine ign) (fun r => r.length = n)
+    (fun s h => s.getD j none = baseline ign (column j h)) ?_ ?_ hist hw
+  · simp [changedColsMachine, baseline, column]
+  · intro s h a ha hs
+    show (colsStep ign s a).1.getD j none = _
+    rw [(colsStep_get ign a s j (by omega)).1, hs, column_snoc, chgStep_fst]
+
+theorem changedCols_out (ign : Bool) (n : Nat) (hist : List (List (Val ν))) (cur : List (Val ν))
+    (hw : ∀ r ∈ hist, r.length = n) (hc : cur.length = n) :
+    (changedColsMachine ign).out hist cur = changedColsSpec ign hist cur := by
+  unfold Machine.out
+  show (colsStep ign _ cur).2 = _
+  apply List.ext_getElem
+  · simp [colsStep_length, changedColsSpec]
+  · intro j h1 h2
+    have hj : j < cur.length := by simpa [colsStep_length] using h1
+    have hget := (colsStep_get ign cur ((changedColsMachine ign).run (changedColsMachine ign).init hist) j hj).2
+    rw [changedCols_state ign n hist hw j (by omega), chgStep_snd] at hget
+    have e1 : (colsStep ign ((changedColsMachine ign).run (changedColsMachine ign).init hist) cur).2[j] =
+        (colsStep ign ((changedColsMachine ign).run (changedColsMachine ign).init hist) cur).2.getD j none := by
+      simp [List.getD, h1]
+    rw [e1, hget]
+    simp [changedColsSpec]
+
+/-! ### had_changed -/
+
+theorem any_congr_mem {γ : Type} (l : List γ) (p q : γ → Bool) (h : ∀ a ∈ l, p a = q a) : l.any p = l.any q := by
+  induction l with
+  | nil => rfl
+  | cons a l ih =>
+    simp only [List.any_cons]
+    rw [h a (by simp), ih (fun b hb => h b (by simp [hb]))]
+
+theorem hcNewPrev_length (ign : Bool) (vals prev : List (Val ν)) : (hcNewPrev ign prev vals).length = vals.length := by
+  induction vals generalizing prev with
+  | nil => rfl
+  | cons v vs ih => simp [hcNewPrev, ih]
+
+theorem hcNewPrev_get (ign : Bool) (vals prev : List (Val ν)) (j : Nat) (hj : j < vals.length) :
+    (hcNewPrev ign prev vals).getD j .null =
+      if recorded ign (vals.getD j .null) then vals.getD j .null else prev.getD j .null := by
+  induction vals generalizing prev j with
+  | nil => simp at hj
+  | cons v vs ih =>
+    cases j with
+    | zero => simp [hcNewPrev, List.head?_eq_getElem?]
+    | succ j =>
+      have hj' : j < vs.length := by simpa using hj
+      have := ih prev.tail j hj'
+      simpa [hcNewPrev, tail_getD] using this
+
+/-- `hcChanged` as a statement about column indices -/
+theorem hcChanged_any (ign : Bool) (vals prev : List (Val ν)) :
+    hcChanged ign prev vals = (List.range vals.length).any (fun j =>
+      recorded ign (vals.getD j .null) &&
+        (match prev[j]? with | none => true | some p => !aeq p (vals.getD j .null))) := by
+  induction vals generalizing prev with
+  | nil => rfl
+  | cons v vs ih =>
+    rw [hcChanged, ih prev.tail]
+    simp only [List.length_cons, List.range_succ_eq_map, List.any_cons, List.any_map]
+    congr 1
+    · cases prev <;> simp [hcColChanged]
+    · congr 1
+      funext j
+      cases prev <;> simp [Function.comp]
+
+theorem baseline_single (ign : Bool) (x : Val ν) : (baseline ign [x]).getD .null = x := by
+  unfold baseline
+  by_cases h : recorded ign x
+  · simp [h]
+  · have hx : x.isNull = true := by
+      unfold recorded at h; cases ign <;> simp_all
+    cases x <;> simp_all [Val.isNull]
+
+/-- state after a non-empty history of fixed arity: per column the baseline (NULL if none) -/
+def HcInv (ign : Bool) (n : Nat) (s : Option (List (Val ν))) (h : List (List (Val ν))) : Prop :=
+  (h = [] → s = none) ∧
+  (h ≠ [] → ∃ prev, s = some prev ∧ prev.length = n ∧
+    ∀ j, j < n → prev.getD j .null = (baseline ign (column j h)).getD .null)
+
+theorem hadChanged_state (ign : Bool) (n : Nat) (hist : List (List (Val ν)))
+    (hw : ∀ r ∈ hist, r.length = n) :
+    HcInv ign n ((hadChangedMachine ign).run (hadChangedMachine ign).init hist) hist := by
+  refine Machine.run_inv_init (hadChangedMachine ign) (fun r => r.length = n)
+    (fun s h => HcInv ign n s h) ?_ ?_ hist hw
+  · exact ⟨fun _ => rfl, fun h => absurd rfl h⟩
+  · intro s h a ha hs
+    refine ⟨fun hnil => by simp at hnil, fun _ => ?_⟩
+    by_cases hh : h = []
+    · subst hh
+      have : s = none := hs.1 rfl
+      subst this
+      refine ⟨a, rfl, ha, ?_⟩
+      intro j hj
+      simp [column, baseline_single]
+    · obtain ⟨prev, hsp, hlen, hcol⟩ := hs.2 hh
+      subst hsp
+      refine ⟨hcNewPrev ign prev a, rfl, by rw [hcNewPrev_length, ha], ?_⟩
+      intro j hj
+      rw [hcNewPrev_get ign a prev j (by omega), column_snoc, baseline_snoc]
+      by_cases hr : recorded ign (a.getD j .null) = true
+      · rw [if_pos hr, if_pos hr]; rfl
+      · rw [if_neg hr, if_neg hr]; exact hcol j hj
+
+theorem hadChanged_out (ign : Bool) (n : Nat) (hist : List (List (Val ν))) (cur : List (Val ν))
+    (hw : ∀ r ∈ hist, r.length = n) (hc : cur.length = n) :
+    (hadChangedMachine ign).out hist cur = hadChangedSpec ign hist cur := by
+  unfold Machine.out
+  have hinv := hadChanged_state ign n hist hw
+  by_cases hh : hist = []
+  · subst hh
+    rfl
+  · obtain ⟨prev, hsp, hlen, hcol⟩ := hinv.2 hh
+    show (hcStep ign _ cur).2 = _
+    rw [hsp]
+    show hcChanged ign prev cur = _
+    rw [hcChanged_any]
+    unfold hadChangedSpec
+    have hne : hist.isEmpty = false := by cases hist <;> simp_all
+    rw [hne]
+    simp only [Bool.false_eq_true, if_false]
+    apply any_congr_mem
+    intro j hj
+    have hjn : j < n := by simpa [hc] using hj
+    have hp : prev[j]? = some (prev.getD j .null) := by
+      have : j < prev.length := by omega
+      simp [List.getD, this]
+    rw [hp, hcol j hjn]
+
+
 end
 end Analytic
